@@ -2,6 +2,7 @@
 import OPModel.Drive.C19
 import OPModel.Drive.C06
 import OPModel.Drive.C01
+import OPModel.Drive.C08
 
 open OP
 
@@ -10,6 +11,7 @@ def handle (line : String) : String :=
   | "stream" :: args => Drive.stream Gen.isoOffset args
   | "coll" :: args => Drive.coll args
   | "cascade" :: args => Drive.cascade args
+  | "insert" :: args => Drive.insert args
   | "pinch" :: args => Drive.pinch args
   | "pincht" :: args => Drive.pincht args
   | _ => "bad-op"
